@@ -482,10 +482,17 @@ fn check_valid(ctx: &Ctx, kind: &str, journal_payload: Value, spec: &Spec, args:
         Some(f) => format!("C17|nonterm|{}", f),
         None => NO_KNOWN_HANG_FEATURE.to_string(),
     });
-    let run_use = hang.is_none() || ctx.strict;
+    // (only while that shape is a *listed* finding: once repaired it is expanded like any other,
+    // in the forked child, so that the repair cannot silently regress)
+    let listed = hang.as_ref().map(|f| ctx.is_known(&format!("C17|nonterm|{}|abort", f)) || ctx.is_known(&format!("C17|nonterm|{}|hang", f))).unwrap_or(false);
+    let run_use = !listed || ctx.strict;
     if let Some(f) = &hang {
-        ctx.class(&format!("excluded-known-nontermination:{}", f));
-        ctx.extra_add("uses_not_run_known_nontermination", 1);
+        if listed {
+            ctx.class(&format!("excluded-known-nontermination:{}", f));
+            ctx.extra_add("uses_not_run_known_nontermination", 1);
+        } else {
+            ctx.class(&format!("formerly-nonterminating-shape-expanded:{}", f));
+        }
     }
     if !ctx.journal(&json!({"kind": kind, "payload": jp})) {
         ctx.discard("skipped: did not return in an earlier incarnation of this shard");
@@ -644,11 +651,16 @@ fn check_arbitrary(ctx: &Ctx, kind: &str, journal_payload: Value, def_of: &dyn F
         Some(f) => format!("C17|nonterm|{}", f),
         None => NO_KNOWN_HANG_FEATURE.to_string(),
     });
+    let listed = hang.as_ref().map(|f| ctx.is_known(&format!("C17|nonterm|{}|abort", f)) || ctx.is_known(&format!("C17|nonterm|{}|hang", f))).unwrap_or(false);
     if let Some(f) = &hang {
-        ctx.class(&format!("excluded-known-nontermination:{}", f));
-        ctx.extra_add("uses_not_run_known_nontermination", 1);
+        if listed {
+            ctx.class(&format!("excluded-known-nontermination:{}", f));
+            ctx.extra_add("uses_not_run_known_nontermination", 1);
+        } else {
+            ctx.class(&format!("formerly-nonterminating-shape-expanded:{}", f));
+        }
     }
-    let run_use = hang.is_none() || ctx.strict;
+    let run_use = !listed || ctx.strict;
     if !ctx.journal(&json!({"kind": kind, "payload": jp})) {
         ctx.discard("skipped: did not return in an earlier incarnation of this shard");
         return Outcome::Discard;
